@@ -14,16 +14,6 @@ namespace Panqec.Sweep
 set_option linter.unusedSimpArgs false
 set_option linter.unusedVariables false
 
-/-- at every vertex, for every sweep direction of `decode`: `all(faces_valid)` implies
-    `all(edges_valid)` (decidable; the analogue of `sweepEdgesOK3D`, not needed as a
-    hypothesis because the rotated decoder checks the edges at run time) -/
-def sweepEdgesOKRot (lat : Lattice) : Bool :=
-  (sweepVerticesRot lat).all fun v => sweepDirections.all fun sd =>
-    let F := sweepFacesRot v sd
-    let E := sweepEdgesRot v sd
-    !(lat.isStabFace F.1 && lat.isStabFace F.2.1 && lat.isStabFace F.2.2) ||
-      (lat.isQubit E.1 && lat.isQubit E.2.1 && lat.isQubit E.2.2)
-
 theorem rotPlanar_isStabFace_mem (Lx Ly Lz : Nat) (s : Loc)
     (h : (rotPlanar3D Lx Ly Lz).isStabFace s = true) : s ∈ rotPlanarStabs Lx Ly Lz := by
   simp only [Lattice.isStabFace, rotPlanar3D, Bool.and_eq_true, List.contains_iff_mem] at h
@@ -71,13 +61,13 @@ theorem rotPlanar_sweepEdges_at (Lx Ly Lz : Nat) (a b c : Int)
 theorem rotPlanar_sweepEdges_px (Lx Ly Lz : Nat) (a b c sz : Int) (hsz : sz = 1 ∨ sz = -1)
     (hvert : 2 ≤ a ∧ a < 2 * (Lx : Int) ∧ a % 2 = 0 ∧ 0 ≤ b ∧ b < 2 * (Ly : Int) + 1 ∧ b % 2 = 0 ∧
       1 ≤ c ∧ c < 2 * (Lz : Int) ∧ c % 2 = 1 ∧ (a + b) % 4 = 2) :
-    (sweepFacesRot (a, b, c) (1, 0, sz)).1 ∈ rotPlanarStabs Lx Ly Lz →
-    (sweepFacesRot (a, b, c) (1, 0, sz)).2.1 ∈ rotPlanarStabs Lx Ly Lz →
-    (sweepFacesRot (a, b, c) (1, 0, sz)).2.2 ∈ rotPlanarStabs Lx Ly Lz →
-      (sweepEdgesRot (a, b, c) (1, 0, sz)).1 ∈ rotPlanarQubits Lx Ly Lz ∧
-      (sweepEdgesRot (a, b, c) (1, 0, sz)).2.1 ∈ rotPlanarQubits Lx Ly Lz ∧
-      (sweepEdgesRot (a, b, c) (1, 0, sz)).2.2 ∈ rotPlanarQubits Lx Ly Lz := by
-  simp +decide only [sweepFacesRot, sweepEdgesRot, ↓reduceIte]
+    (oldSweepFacesRot (a, b, c) (1, 0, sz)).1 ∈ rotPlanarStabs Lx Ly Lz →
+    (oldSweepFacesRot (a, b, c) (1, 0, sz)).2.1 ∈ rotPlanarStabs Lx Ly Lz →
+    (oldSweepFacesRot (a, b, c) (1, 0, sz)).2.2 ∈ rotPlanarStabs Lx Ly Lz →
+      (oldSweepEdgesRot (a, b, c) (1, 0, sz)).1 ∈ rotPlanarQubits Lx Ly Lz ∧
+      (oldSweepEdgesRot (a, b, c) (1, 0, sz)).2.1 ∈ rotPlanarQubits Lx Ly Lz ∧
+      (oldSweepEdgesRot (a, b, c) (1, 0, sz)).2.2 ∈ rotPlanarQubits Lx Ly Lz := by
+  simp +decide only [oldSweepFacesRot, oldSweepEdgesRot, ↓reduceIte]
   intro h1 h2 h3
   have k1 := rotPlanarStabs_even _ _ _ _ _ _ h1 (by omega)
   have k2 := rotPlanarStabs_even _ _ _ _ _ _ h2 (by omega)
@@ -90,13 +80,13 @@ theorem rotPlanar_sweepEdges_px (Lx Ly Lz : Nat) (a b c sz : Int) (hsz : sz = 1 
 theorem rotPlanar_sweepEdges_py (Lx Ly Lz : Nat) (a b c sz : Int) (hsz : sz = 1 ∨ sz = -1)
     (hvert : 2 ≤ a ∧ a < 2 * (Lx : Int) ∧ a % 2 = 0 ∧ 0 ≤ b ∧ b < 2 * (Ly : Int) + 1 ∧ b % 2 = 0 ∧
       1 ≤ c ∧ c < 2 * (Lz : Int) ∧ c % 2 = 1 ∧ (a + b) % 4 = 2) :
-    (sweepFacesRot (a, b, c) (0, 1, sz)).1 ∈ rotPlanarStabs Lx Ly Lz →
-    (sweepFacesRot (a, b, c) (0, 1, sz)).2.1 ∈ rotPlanarStabs Lx Ly Lz →
-    (sweepFacesRot (a, b, c) (0, 1, sz)).2.2 ∈ rotPlanarStabs Lx Ly Lz →
-      (sweepEdgesRot (a, b, c) (0, 1, sz)).1 ∈ rotPlanarQubits Lx Ly Lz ∧
-      (sweepEdgesRot (a, b, c) (0, 1, sz)).2.1 ∈ rotPlanarQubits Lx Ly Lz ∧
-      (sweepEdgesRot (a, b, c) (0, 1, sz)).2.2 ∈ rotPlanarQubits Lx Ly Lz := by
-  simp +decide only [sweepFacesRot, sweepEdgesRot, ↓reduceIte]
+    (oldSweepFacesRot (a, b, c) (0, 1, sz)).1 ∈ rotPlanarStabs Lx Ly Lz →
+    (oldSweepFacesRot (a, b, c) (0, 1, sz)).2.1 ∈ rotPlanarStabs Lx Ly Lz →
+    (oldSweepFacesRot (a, b, c) (0, 1, sz)).2.2 ∈ rotPlanarStabs Lx Ly Lz →
+      (oldSweepEdgesRot (a, b, c) (0, 1, sz)).1 ∈ rotPlanarQubits Lx Ly Lz ∧
+      (oldSweepEdgesRot (a, b, c) (0, 1, sz)).2.1 ∈ rotPlanarQubits Lx Ly Lz ∧
+      (oldSweepEdgesRot (a, b, c) (0, 1, sz)).2.2 ∈ rotPlanarQubits Lx Ly Lz := by
+  simp +decide only [oldSweepFacesRot, oldSweepEdgesRot, ↓reduceIte]
   intro h1 h2 h3
   have k1 := rotPlanarStabs_even _ _ _ _ _ _ h1 (by omega)
   have k2 := rotPlanarStabs_even _ _ _ _ _ _ h2 (by omega)
@@ -109,13 +99,13 @@ theorem rotPlanar_sweepEdges_py (Lx Ly Lz : Nat) (a b c sz : Int) (hsz : sz = 1 
 theorem rotPlanar_sweepEdges_mx (Lx Ly Lz : Nat) (a b c sz : Int) (hsz : sz = 1 ∨ sz = -1)
     (hvert : 2 ≤ a ∧ a < 2 * (Lx : Int) ∧ a % 2 = 0 ∧ 0 ≤ b ∧ b < 2 * (Ly : Int) + 1 ∧ b % 2 = 0 ∧
       1 ≤ c ∧ c < 2 * (Lz : Int) ∧ c % 2 = 1 ∧ (a + b) % 4 = 2) :
-    (sweepFacesRot (a, b, c) (-1, 0, sz)).1 ∈ rotPlanarStabs Lx Ly Lz →
-    (sweepFacesRot (a, b, c) (-1, 0, sz)).2.1 ∈ rotPlanarStabs Lx Ly Lz →
-    (sweepFacesRot (a, b, c) (-1, 0, sz)).2.2 ∈ rotPlanarStabs Lx Ly Lz →
-      (sweepEdgesRot (a, b, c) (-1, 0, sz)).1 ∈ rotPlanarQubits Lx Ly Lz ∧
-      (sweepEdgesRot (a, b, c) (-1, 0, sz)).2.1 ∈ rotPlanarQubits Lx Ly Lz ∧
-      (sweepEdgesRot (a, b, c) (-1, 0, sz)).2.2 ∈ rotPlanarQubits Lx Ly Lz := by
-  simp +decide only [sweepFacesRot, sweepEdgesRot, ↓reduceIte]
+    (oldSweepFacesRot (a, b, c) (-1, 0, sz)).1 ∈ rotPlanarStabs Lx Ly Lz →
+    (oldSweepFacesRot (a, b, c) (-1, 0, sz)).2.1 ∈ rotPlanarStabs Lx Ly Lz →
+    (oldSweepFacesRot (a, b, c) (-1, 0, sz)).2.2 ∈ rotPlanarStabs Lx Ly Lz →
+      (oldSweepEdgesRot (a, b, c) (-1, 0, sz)).1 ∈ rotPlanarQubits Lx Ly Lz ∧
+      (oldSweepEdgesRot (a, b, c) (-1, 0, sz)).2.1 ∈ rotPlanarQubits Lx Ly Lz ∧
+      (oldSweepEdgesRot (a, b, c) (-1, 0, sz)).2.2 ∈ rotPlanarQubits Lx Ly Lz := by
+  simp +decide only [oldSweepFacesRot, oldSweepEdgesRot, ↓reduceIte]
   intro h1 h2 h3
   have k1 := rotPlanarStabs_even _ _ _ _ _ _ h1 (by omega)
   have k2 := rotPlanarStabs_even _ _ _ _ _ _ h2 (by omega)
@@ -128,13 +118,13 @@ theorem rotPlanar_sweepEdges_mx (Lx Ly Lz : Nat) (a b c sz : Int) (hsz : sz = 1 
 theorem rotPlanar_sweepEdges_my (Lx Ly Lz : Nat) (a b c sz : Int) (hsz : sz = 1 ∨ sz = -1)
     (hvert : 2 ≤ a ∧ a < 2 * (Lx : Int) ∧ a % 2 = 0 ∧ 0 ≤ b ∧ b < 2 * (Ly : Int) + 1 ∧ b % 2 = 0 ∧
       1 ≤ c ∧ c < 2 * (Lz : Int) ∧ c % 2 = 1 ∧ (a + b) % 4 = 2) :
-    (sweepFacesRot (a, b, c) (0, -1, sz)).1 ∈ rotPlanarStabs Lx Ly Lz →
-    (sweepFacesRot (a, b, c) (0, -1, sz)).2.1 ∈ rotPlanarStabs Lx Ly Lz →
-    (sweepFacesRot (a, b, c) (0, -1, sz)).2.2 ∈ rotPlanarStabs Lx Ly Lz →
-      (sweepEdgesRot (a, b, c) (0, -1, sz)).1 ∈ rotPlanarQubits Lx Ly Lz ∧
-      (sweepEdgesRot (a, b, c) (0, -1, sz)).2.1 ∈ rotPlanarQubits Lx Ly Lz ∧
-      (sweepEdgesRot (a, b, c) (0, -1, sz)).2.2 ∈ rotPlanarQubits Lx Ly Lz := by
-  simp +decide only [sweepFacesRot, sweepEdgesRot, ↓reduceIte]
+    (oldSweepFacesRot (a, b, c) (0, -1, sz)).1 ∈ rotPlanarStabs Lx Ly Lz →
+    (oldSweepFacesRot (a, b, c) (0, -1, sz)).2.1 ∈ rotPlanarStabs Lx Ly Lz →
+    (oldSweepFacesRot (a, b, c) (0, -1, sz)).2.2 ∈ rotPlanarStabs Lx Ly Lz →
+      (oldSweepEdgesRot (a, b, c) (0, -1, sz)).1 ∈ rotPlanarQubits Lx Ly Lz ∧
+      (oldSweepEdgesRot (a, b, c) (0, -1, sz)).2.1 ∈ rotPlanarQubits Lx Ly Lz ∧
+      (oldSweepEdgesRot (a, b, c) (0, -1, sz)).2.2 ∈ rotPlanarQubits Lx Ly Lz := by
+  simp +decide only [oldSweepFacesRot, oldSweepEdgesRot, ↓reduceIte]
   intro h1 h2 h3
   have k1 := rotPlanarStabs_even _ _ _ _ _ _ h1 (by omega)
   have k2 := rotPlanarStabs_even _ _ _ _ _ _ h2 (by omega)
@@ -167,6 +157,7 @@ theorem rotPlanar_sweepEdgesOK (Lx Ly Lz : Nat) : sweepEdgesOKRot (rotPlanar3D L
       simp [rotPlanar3D, rotIsFace, hc, e01] at hnf
   rw [List.all_eq_true]
   intro sd hsd
+  rw [sweepFacesRot_noSeam _ rfl, sweepEdgesRot_noSeam _ rfl]
   apply rotPlanar_sweepEdges_at Lx Ly Lz a b c hvert
   simp only [sweepDirections, List.mem_cons, List.not_mem_nil, or_false] at hsd
   rcases hsd with rfl | rfl | rfl | rfl | rfl | rfl | rfl | rfl
